@@ -65,8 +65,11 @@ def visitList (visitOne : Mod → List String → List Mod × List String) :
       let r' := visitList visitOne ts r.2
       (r.1 ++ r'.1, r'.2)
 
-/-- Depth-first order over `next`: `m`, then what lies below it, each (sub)module name once
-(`seen`: the names marked so far; returned with the new marks); `d` bounds the depth. -/
+/-- Depth-first order over `next`: `m`, then what lies below it; a (sub)module is entered from
+another one only when its name is not yet marked, and is marked then (`seen`: the names marked so
+far; returned with the new marks); `d` bounds the depth.  The starting (sub)module itself is not
+marked, so the list can name it a second time when the walk comes back to it — which cannot
+change what is found *first* in the list. -/
 def visit (reg : Registry) (linked : List Nat) : Nat → Mod → List String → List Mod × List String
   | 0, m, seen => ([m], seen)
   | d + 1, m, seen =>
